@@ -71,6 +71,9 @@ theorem applyNested_ring (D : Desc) (f : Fsm) (e : Bool) (acts : List Nested) : 
     | edit bs =>
       simp only [applyNested]
       split <;> (apply ih; exact hi.congr (by simp))
+    | report n =>
+      simp only [applyNested]
+      split <;> (apply ih; exact hi.congr (by simp))
 
 theorem varWriteCb_ring (D : Desc) (s : St) (v : VarD) (i : SvcIn) : Keeps (RingInv D) s (varWriteCb D s v i).1 := by
   intro hi; unfold varWriteCb; split
